@@ -123,7 +123,8 @@ fn rgb_points<T: Fl>(full: bool) -> Vec<[T; 3]> {
     let lo = T::from64(0.1);
     for k in KNEES {
         let t = T::from64(k);
-        for tt in if full { vec![t.down(), t, t.up()] } else { vec![t, t.up()] } {
+        // (quick: exactly at the knee per channel; the greys above carry knee and knee + ulp)
+        for tt in if full { vec![t.down(), t, t.up()] } else { vec![t] } {
             v.push([tt, mid, lo]);
             v.push([lo, tt, mid]);
             v.push([mid, lo, tt]);
@@ -213,7 +214,9 @@ fn hexcone_points<T: Fl>(k: u8, full: bool) -> Vec<[T; 3]> {
         for kn in KNEES {
             let x = t(kn);
             v.push([t(0.0), t(0.0), x]);
-            v.push([t(0.0), t(0.0), x.up()]);
+            if full {
+                v.push([t(0.0), t(0.0), x.up()]);
+            }
         }
         // hsv -> hsl: (2 - s) v on both sides of 1, = 1, = 2 ; negative / > 1 components
         v.push([t(30.0), t(0.5), t(2.0 / 3.0)]);
